@@ -62,8 +62,33 @@ class C15(CacheProp):
         dirty = False              # any Set since the last completed Clear
         blocked_waits = set()
         est_set_since_clear = False
+        accepted = []        # (op index, value) of the Sets that returned true
+        exits = {}
+        special = "profile:collide" in case.tags or any(o.startswith("closeset") or o.startswith("sweeprw") for o in case.ops)
+
+        def all_released(upto, n, what):
+            # every value accepted before op [upto] has been passed to OnExit (exactly once is C04's business; here: at all)
+            if special:
+                return
+            for i, v in accepted:
+                if i < upto and v not in exits:
+                    fails.append("op %d: %s has returned but value %d, whose Set (op %d) returned true, was never passed to "
+                                 "OnExit" % (n, what, v, i))
         for st in tr.steps:
             op, res = st["op"], st["res"]
+            for cb in st["cbs"]:
+                if cb.startswith("exit:"):
+                    v = int(cb[5:])
+                    exits[v] = exits.get(v, 0) + 1
+                    if exits[v] == 2 and not special:
+                        fails.append("op %d: value %d passed to OnExit a second time" % (st["n"], v))
+            if op[0] == "set" and res[:1] == ["true"]:
+                accepted.append((st["n"], int(op[3])))
+            if op[0] in ("clear", "close") and res[:1] != ["blocked"]:
+                all_released(st["n"], st["n"], "Clear" if op[0] == "clear" else "Close")
+            for dn in st["done"]:
+                if dn.isdigit() and int(dn) < len(tr.steps) and tr.steps[int(dn)]["op"][0] in ("clear", "close"):
+                    all_released(int(dn), st["n"], "Clear" if tr.steps[int(dn)]["op"][0] == "clear" else "Close")
             if op[0] == "updmax":
                 max_cost = int(op[1])
             if closed_at is not None and st["n"] > closed_at:
